@@ -104,7 +104,7 @@ theorem countP_or_eq (l : List EvId) (p : EvId → Bool) (x : EvId) (hx : p x = 
       simp [this]; omega
 
 /-- **the pop keeps the counting invariant**: the `_check`s subscribed to the popped event become the pending ones -/
-theorem CInv.openEvent {lv strict : Bool} {x0 : EvId} {s : KState ℚ σ} (hc : CInv [] x0 s) (hi : Once.Inv0 lv s strict)
+theorem CInv.openEvent {lv strict : Bool} {x0 : EvId} {s : KState ℚ σ} (hc : CInv [] x0 s) (_hi : Once.Inv0 lv s strict)
     (q : QEntry ℚ) (rest : List (QEntry ℚ)) (L : List Cb) (hL : (s.ev q.ev).cbs = some L) :
     CInv L q.ev (_root_.openEvent s q rest) := by
   have hlt : q.ev < s.events.size := lt_of_cbs_some s _ L hL
